@@ -87,6 +87,12 @@ func orderPolicy(r *sim.Rand) string {
 	return []string{"sorted", "reverse", "rotate", "shuffle", "mixed", "shuffle"}[r.Intn(6)]
 }
 
+// preemptMean draws the mean gap (in preemption points of the instrumented library) between two preemptions inside
+// library calls for one run: 0 = only at operation boundaries, lock operations and file-system calls.
+func preemptMean(r *sim.Rand) int {
+	return []int{0, 0, 20, 200, 200, 2000, 20000}[r.Intn(7)]
+}
+
 // sprinkleSaves inserts save / restart operations into an op list: about
 // one every `every` ops, always one at the end. restartP is the share of
 // restarts among them.
